@@ -54,6 +54,8 @@ func runC07(c *core.Ctx) {
 	c.RuleDoc("R07.2", "generic Sub view reaches its parent only through Mount's (FS, subPath) pair")
 	c.RuleDoc("R07.3", "Sub view error translation uses the same pair")
 	c.RuleDoc("R07.6", "prefix tests against a view's root (os.FS root, mount translation) are on path-element boundaries")
+	c.RuleDoc("R07.10", "a helper delegates with the (file system, sub-path) pair of one Mount call and translates with it (= R06.3)")
+	c.RuleDoc("R07.11", "a method of the generic Sub view delegates to the exported operation of its own name")
 	c.RuleDoc("R07.8", "no method of a view type writes a field of its receiver")
 	c.RuleDoc("R07.9", "the error translator compares the failing path only within its own namespace (= R05.11)")
 	c.RuleDoc("R07.7", "a helper resolves a route once and leaves the next decision to the resolved file system")
@@ -70,6 +72,9 @@ func runC07(c *core.Ctx) {
 		boundaryTests(c, p, "R07.6", "os", "")
 		r07SingleResolution(c, p)
 		r07ViewsAreValues(c, p)
+		r07ViewDelegatesByName(c, p)
+		// R07.10 (= R06.3): helpers delegate with the pair of one Mount call
+		c.WithAlias(map[string]string{"R06.3": "R07.10"}, func() { r06Pairs(c, p) })
 		// R07.9 (= R05.11): the error translator never confuses the inner path with the caller's name
 		c.WithAlias(map[string]string{"R05.11": "R07.9"}, func() { r05NamespaceTyped(c, p) })
 	}
@@ -81,6 +86,8 @@ func runC07(c *core.Ctx) {
 	c.Floor("R07.6", 1)
 	c.Floor("R07.7", 15)
 	c.Floor("R07.8", 10)
+	c.Floor("R07.10", 15)
+	c.Floor("R07.11", 3)
 	c.Floor("R07.9", 2)
 }
 
@@ -705,5 +712,73 @@ func r07ViewsAreValues(c *core.Ctx, p *load.Program) {
 	}
 	if cnt < 10 {
 		c.Hard("anchor: methods of the view types (found %d)", cnt)
+	}
+}
+
+// r07ViewDelegatesByName (R07.11): a method M of the generic Sub view hands the resolved (file system, sub-path) pair to
+// the package-level helper M (or, for Open, to the resolved file system's own Open): the helper dispatches on what
+// the resolved file system offers. An internal walker called directly (removeAll instead of RemoveAll) ignores the
+// resolved file system's own method — for a mount FS with a mount point below the name, the mounted tree is wiped
+// where the parent's RemoveAll removes the directory in the root file system only.
+func r07ViewDelegatesByName(c *core.Ctx, p *load.Program) {
+	n := p.Named("", "subFS")
+	if n == nil {
+		c.Hard("anchor: hackpadfs.subFS")
+		return
+	}
+	cnt := 0
+	for _, fn := range methodList(p, n) {
+		if fn.Name() == "Mount" || fn.Object() == nil || !fn.Object().Exported() {
+			continue
+		}
+		// calls that receive the sub-path (second result of Mount)
+		var bad string
+		delegs := 0
+		ssax.Instrs(fn, func(ins ssa.Instruction) {
+			ci, ok := ins.(ssa.CallInstruction)
+			if !ok {
+				return
+			}
+			cc := ci.Common()
+			usesSub := false
+			for _, a := range cc.Args {
+				if e, ok := a.(*ssa.Extract); ok && e.Index == 1 {
+					if mc, ok := e.Tuple.(*ssa.Call); ok {
+						if callee := ssax.StaticCallee(mc); callee != nil && callee.Name() == "Mount" {
+							usesSub = true
+						}
+					}
+				}
+			}
+			if !usesSub {
+				return
+			}
+			name := ""
+			if cc.IsInvoke() {
+				name = cc.Method.Name()
+			} else if callee := ssax.StaticCallee(ci); callee != nil {
+				name = callee.Name()
+				if name == "stripErrPathPrefix" {
+					return
+				}
+				if callee.Object() == nil || !callee.Object().Exported() {
+					bad = fmt.Sprintf("%s (unexported) at %s", name, p.Pos(ins.Pos()))
+				}
+			}
+			delegs++
+			if name != fn.Name() && bad == "" {
+				bad = fmt.Sprintf("%s at %s", name, p.Pos(ins.Pos()))
+			}
+		})
+		if delegs == 0 {
+			continue
+		}
+		cnt++
+		key := fname(fn) + "|delegates-to-the-operation-of-its-own-name"
+		c.Check(bad == "", "R07.11", key, p.Pos(fn.Pos()), "the resolved pair goes to the helper/method of the same name",
+			fmt.Sprintf("%s hands the resolved (file system, sub-path) pair to %s instead of the exported operation of its own name: the resolved file system's own method is never asked — through a view above a mount point the result differs from the same operation on the parent (the mounted tree is wiped where the parent removes the root file system's directory)", fname(fn), bad))
+	}
+	if cnt < 3 {
+		c.Hard("anchor: delegating methods of the generic Sub view (found %d)", cnt)
 	}
 }
